@@ -91,6 +91,7 @@ FIXES.append(('element of any array but the last one read the last array', ['C42
 FIXES.append(('suspended while a continuous SOUND was playing could not be resumed', ['C40'], 'internal:TypeError@basic/sound.py:<genexpr>'))
 FIXES.append(('changing only the attribute of half a double-byte character', ['C35'], 'display:pixels:after-update:dbcs'))
 FIXES.append(('cursor-right from the last column left the pending-wrap flag', ['C36'], 'cursor:next-character-not-at-reported-position:after-control-code'))
+FIXES.append(('cursor-right from the last column left the pending-wrap flag', ['C36'], 'cursor:next-character-not-at-reported-position:after-unmodelled-output'))
 FIXES.append(('a failed CHAIN left string garbage collection switched off', ['C10'], 'oss:raised-although-space-sufficient'))
 FIXES.append(('a failed CHAIN left string garbage collection switched off', ['C23'], 'chain-fails:string-churn-after-failed-chain-does-not-complete'))
 FIXES.append(('RESUME NEXT re-ran the failing statement when blanks preceded its colon', ['C21', 'C22'], 'diverge-after:resume:next'))
